@@ -504,6 +504,14 @@ def run(ctx):
     va = ctx.apply(I, f, r.ret, [sym('tt')])
     ctx.formula('FORMULA', 'constant_t_profile(scalar) == level', f, va, sym('level'), node=f.node, construct='t_profile(scalar)')
     T.SYMKIND.clear()
+    # bounding range on: the columns computed are [clip(i0), clip(i1)) with i = get_index(f) -- the plain rounded offset; a clamped
+    # index could not name the exclusive stop `fchans`, and a range reaching the band edge would leave the top column at zero
+    ctx.clause = 'D7'
+    gi = ctx.func('frame.Frame.get_index')
+    rgi, _ = ctx.run(gi)
+    ctx.formula('FORMULA', 'get_index is the unclamped rounded channel offset round((f - fmin)/df) (bounded injection reaches the '
+                'top channel through the exclusive stop index fchans)', gi, rgi.ret,
+                ctx.spec(gi, 'np.round((frequency - self.fmin) / self.df).astype(int)'), node=gi.node, construct='return get_index')
 
 
 META = {
